@@ -823,7 +823,7 @@ func (e *Engine) chanSend(c *Chan, v Value) {
 	oldAny := c.anyOrder
 	e.logUndo(func() { c.buf = c.buf[:n]; c.anyOrder = oldAny })
 	c.buf = append(c.buf[:n:n], copyVal(v))
-	if e.path.goDepth > 0 {
+	if e.path.goDepth > 0 && !e.cfg.FifoChans {
 		c.anyOrder = true
 	}
 }
